@@ -3,10 +3,10 @@ import vlib, mgrcheck
 from gen import mgr
 
 PROP = 'C05'
-ASPECTS = {'isolation', 'valid', 'values', 'members', 'sharedvals'}
+ASPECTS = {'isolation', 'valid', 'values', 'members', 'sharedvals', 'tmpaddr'}
 
 
-def concurrent_creation(tier, scripts=None):
+def concurrent_creation(tier, scripts=None, work=None):
     """real concurrency (not call-granularity): the workers of the dispatcher create entities at the same time while locked"""
     import os, re, emcmp
     drv, err = vlib.build_driver('em_driver')
@@ -15,7 +15,7 @@ def concurrent_creation(tier, scripts=None):
     rounds, per = (150, 40) if tier == 'quick' else (3000, 60)
     scripts = scripts or [('pc%d' % t, ['maxthreads %d' % mgr.MAXTHREADS, 'threads %d' % t, 'reg 0', 'update', 'pcreate %d %d' % (rounds, per), 'create 0 0', 'pcreate %d %d' % (rounds // 3, 7)])
                for t in (2, 3, 4, 8)]
-    io, _ = emcmp.run_driver(drv, emcmp.scripts_text(scripts), os.path.join(vlib.BUILD, 'work', PROP + '-pc'), timeout=1200)
+    io, _ = emcmp.run_driver(drv, emcmp.scripts_text(scripts), os.path.join(vlib.BUILD, 'work', work or (PROP + '-pc')), timeout=1200)
     created = 0
     for name, blocks in emcmp.parse(io):
         for b in blocks:
